@@ -1,3 +1,60 @@
-(* placeholder until the proofs are in place *)
-From Cobra.Core Require Import Model.
-Example C03_placeholder : True. Proof. exact I. Qed.
+(* C03 — leaving a `with model:` block restores the model completely.
+   This file only states the property theorems and prints their assumptions.
+   State equality is Leibniz equality of records of functions, hence
+   FunctionalExtensionality.functional_extensionality_dep (standard library) in the assumptions. *)
+From Coq Require Import ZArith QArith Qcanon List Bool.
+From Cobra.Core Require Import Model Inv Preserve RestoreBase RestoreOps Restore.
+Import ListNotations.
+Open Scope Z_scope.
+
+(* The full statement over the whole op kernel of Core/Model.v (every context-aware operation, any
+   nesting, any point of failure): kept visible; proved below for the operations of `ctx_ok`.       *)
+Definition C03_statement : Prop :=
+  forall (allowed : st -> op -> Prop),
+    (forall s o, allowed s o -> op_ok s o) ->
+  forall s l, Inv s -> V s ->
+    (fix ok (s : st) (l : list item) : Prop :=
+       match l with [] => True | i :: l' => (match i with Op o => allowed s o | Block _ => True end) /\ ok (run_item s i) l' end)
+      (enter_ctx s) l ->
+    exit_ctx (run_items (enter_ctx s) l) = (s, Ok).
+
+(* every operation in scope registers undo closures whose replay (newest first) undoes it exactly *)
+Theorem C03_step_undone : forall s o, Inv s -> V s -> ctx_ok s o ->
+  forall h rest, ctx s = h :: rest ->
+  exists new, ctx (fst (step s o)) = (new ++ h) :: rest /\ reset_from new (body (fst (step s o))) = body s.
+Proof. intros s o HI HV Hok. exact (step_undone s o HI HV Hok). Qed.
+Print Assumptions C03_step_undone.
+
+(* Leaving a block gives back EXACTLY the state at its entry (content, objective and direction, solver
+   problem, cross references, enclosing context stack), and the exit does not raise - for blocks that
+   contain, in any number, order and nesting depth, bounds assignments (also failing ones), knock-outs,
+   objective assignments (also failing part-way), objective coefficients and direction changes, and for
+   the block ended after any prefix (an exception between two operations).                           *)
+Theorem C03_context_restores_partial : forall s l,
+  Inv s -> V s -> ok_items (enter_ctx s) l ->
+  exit_ctx (run_items (enter_ctx s) l) = (s, Ok).
+Proof. exact context_restores. Qed.
+Print Assumptions C03_context_restores_partial.
+
+(* a nested block is the identity on the state, so it can appear anywhere inside another block *)
+Theorem C03_nested_block_identity : forall s l, Inv s -> V s -> ok_item s (Block l) -> run_item s (Block l) = s.
+Proof.
+  intros s l HI HV Hok. rewrite ok_item_block in Hok. cbn [run_item]. fold (run_items (enter_ctx s) l).
+  rewrite (context_restores s l HI HV Hok). reflexivity.
+Qed.
+Print Assumptions C03_nested_block_identity.
+
+(* non-vacuity: a two-level block on a one-reaction model, with a failing bounds assignment inside *)
+Definition q (z : Z) : Qc := Q2Qc (inject_Z z).
+Definition m0 : st :=
+  run [NewRxn 0 (Fn (q 0)) (Fn (q 10)) [(0, q (-1))]; AddRxn 0; SetObj [(0, q 1)]] (init_u [0] [0]).
+Definition blk : list item :=
+  [Op (SetBounds 0 (Fn (q (-5))) (Fn (q 5))); Block [Op (KnockOut 0); Op (SetDir false); Op (SetLb 0 (Fn (q 7)))];
+   Op (SetObj [(0, q 2)]); Op (SetUb 0 (Fn (q (-9))))].
+Example C03_demo :
+  ub (run_items (enter_ctx m0) blk) 0 = Fn (q 5) /\ lb (run_items (enter_ctx m0) blk) 0 = Fn (q (-5)) /\
+  oc (run_items (enter_ctx m0) blk) (F 0) = q 2 /\
+  vub (fst (exit_ctx (run_items (enter_ctx m0) blk))) (F 0) = Fn (q 10) /\
+  oc (fst (exit_ctx (run_items (enter_ctx m0) blk))) (F 0) = q 1 /\
+  snd (exit_ctx (run_items (enter_ctx m0) blk)) = Ok.
+Proof. vm_compute. repeat split. Qed.
